@@ -17,8 +17,18 @@ import (
 	"sort"
 	"strings"
 
+	"crypto/ecdsa"
+	"sync"
+	"time"
+
+	"github.com/youchainhq/go-youchain/bls"
+	"github.com/youchainhq/go-youchain/common"
 	"github.com/youchainhq/go-youchain/consensus/ucon"
+	"github.com/youchainhq/go-youchain/core/state"
+	"github.com/youchainhq/go-youchain/core/types"
 	"github.com/youchainhq/go-youchain/crypto"
+	"github.com/youchainhq/go-youchain/event"
+	"github.com/youchainhq/go-youchain/rlp"
 	"github.com/youchainhq/go-youchain/logging"
 	"github.com/youchainhq/go-youchain/params"
 	"github.com/youchainhq/go-youchain/youdb"
@@ -192,6 +202,271 @@ func loadCorpus(dir string) []History {
 	return out
 }
 
+// ---- voter level --------------------------------------------------------
+// The theorem is about the vote database gate.  That every vote a Voter
+// gossips has passed the gate (a completed database write of the same kind,
+// round and index precedes it) is checked here on the real Voter, including
+// kills at and right after the database write.
+
+type VOp struct {
+	T    string `json:"t"` // ctx judge restart killput killafter
+	R    uint64 `json:"r"`
+	I    uint32 `json:"i"`
+	Step uint32 `json:"step,omitempty"`
+	Cert bool   `json:"cert,omitempty"`
+	Kind int    `json:"k,omitempty"`
+	Hash byte   `json:"h,omitempty"` // block the environment favours (best proposal / quorum block)
+}
+
+type killed struct{}
+
+type killDB struct {
+	youdb.Database
+	mode string // "", "at", "after"
+	puts []emission
+}
+
+func (d *killDB) Put(key, value []byte) error {
+	isVote := len(key) == 23 && key[0] == 'v'
+	if isVote && d.mode == "at" {
+		d.mode = ""
+		panic(killed{})
+	}
+	err := d.Database.Put(key, value)
+	if isVote && err == nil {
+		var it ucon.VoteItem
+		if rlp.DecodeBytes(value, &it) == nil {
+			d.puts = append(d.puts, emission{kindIndex(it.VoteType), it.Round.Uint64(), it.RoundIndex})
+		}
+		if d.mode == "after" {
+			d.mode = ""
+			panic(killed{})
+		}
+	}
+	return err
+}
+
+func kindIndex(t ucon.VoteType) int {
+	for i, k := range kinds {
+		if k == t {
+			return i
+		}
+	}
+	return -1
+}
+
+type pmgr struct{ db youdb.Database }
+
+func (f *pmgr) CurrentCaravelParams() *params.CaravelParams {
+	yp := params.Versions[params.YouCurrentVersion]
+	yp.EnableBls = false
+	return &yp.CaravelParams
+}
+func (f *pmgr) CertificateParams(round *big.Int) (*params.CaravelParams, error) {
+	return f.CurrentCaravelParams(), nil
+}
+func (f *pmgr) GetLookBackVldReader(cp *params.CaravelParams, num *big.Int, lbType params.LookBackType) (state.ValidatorReader, error) {
+	return state.New(common.Hash{}, common.Hash{}, common.Hash{}, state.NewDatabase(f.db))
+}
+func (f *pmgr) CurrentYouParams() *params.YouParams {
+	yp := params.Versions[params.YouCurrentVersion]
+	return &yp
+}
+
+type wire struct {
+	lock sync.Mutex
+	sent []emission
+	hashes []common.Hash
+}
+
+func newVoter(db youdb.Database, mux *event.TypeMux, best *common.Hash) *ucon.Voter {
+	blsSk, _ := bls.NewBlsManager().GenerateKey()
+	isVal := func(round *big.Int, roundIndex uint32, step uint32, lb params.LookBackType) (bool, *ucon.StepView) {
+		return true, &ucon.StepView{SeedValue: common.Hash{1}, SortitionProof: []byte{1}, Priority: common.Hash{1},
+			SubUsers: 1, Threshold: 1000, ValidatorType: params.KindChamber}
+	}
+	maxPrio := func(round *big.Int, roundIndex uint32) (common.Hash, common.Hash, bool) {
+		return common.Hash{1}, *best, true
+	}
+	inCache := func(h common.Hash, p common.Hash) *types.Block { return nil }
+	verify := func(pk *ecdsa.PublicKey, d *ucon.SortitionData, lb params.LookBackType) error { return nil }
+	stake := func(round *big.Int, addr common.Address, isProposer bool, lb params.LookBackType) (*big.Int, *big.Int, uint64, params.ValidatorKind, uint8, error) {
+		return big.NewInt(1), big.NewInt(1), 1000, params.KindChamber, 0, nil
+	}
+	count := func(round *big.Int, kind params.ValidatorKind, lb params.LookBackType) uint64 { return 10 }
+	pm := &pmgr{db: youdb.NewMemDatabase()}
+	v := ucon.NewVoter(db, key, blsSk, mux, verify, isVal, maxPrio, inCache, stake, count, pm)
+	v.SetLookBackMgr(pm)
+	return v
+}
+
+func guarded(fn func()) (wasKilled bool) {
+	defer func() {
+		if r := recover(); r != nil {
+			if _, ok := r.(killed); !ok {
+				panic(r)
+			}
+			wasKilled = true
+		}
+	}()
+	fn()
+	return false
+}
+
+// runVoter executes a voter-level history; returns what left the node and what was persisted.
+func runVoter(ops []VOp) (sent []emission, hashes []common.Hash, puts []emission) {
+	mux := new(event.TypeMux)
+	w := &wire{}
+	sub := mux.Subscribe(ucon.SendMessageEvent{})
+	done := make(chan struct{})
+	go func() {
+		for obj := range sub.Chan() {
+			if obj == nil {
+				break
+			}
+			ev := obj.Data.(ucon.SendMessageEvent)
+			var msg ucon.BlockHashWithVotes
+			if rlp.DecodeBytes(ev.Payload, &msg) != nil {
+				continue
+			}
+			w.lock.Lock()
+			w.sent = append(w.sent, emission{kindIndex(ucon.MsgCodeToVoteType(ev.Code)), msg.Round.Uint64(), msg.RoundIndex})
+			w.hashes = append(w.hashes, msg.BlockHash)
+			w.lock.Unlock()
+		}
+		close(done)
+	}()
+	db := &killDB{Database: youdb.NewMemDatabase()}
+	best := common.Hash{0xa0}
+	v := newVoter(db, mux, &best)
+	for _, o := range ops {
+		best = common.Hash{o.Hash}
+		run := func() {
+			switch o.T {
+			case "ctx":
+				v.VerifUpdateContext(ucon.ContextChangeEvent{Round: new(big.Int).SetUint64(o.R), RoundIndex: o.I, Step: o.Step, Certificate: o.Cert})
+			case "judge":
+				v.VerifJudge(kinds[o.Kind], 1000, 1000, best, common.Hash{1}, params.KindChamber)
+			}
+		}
+		switch o.T {
+		case "restart":
+			v = newVoter(db, mux, &best)
+		case "killput", "killafter":
+			db.mode = "at"
+			if o.T == "killafter" {
+				db.mode = "after"
+			}
+			// the op that is interrupted is a context change into the prevote step or a quorum report
+			inner := o
+			if o.Kind == 0 {
+				inner.T = "ctx"
+			} else {
+				inner.T = "judge"
+				inner.Kind = o.Kind - 1
+			}
+			o2 := inner
+			wasKilled := guarded(func() {
+				switch o2.T {
+				case "ctx":
+					v.VerifUpdateContext(ucon.ContextChangeEvent{Round: new(big.Int).SetUint64(o2.R), RoundIndex: o2.I, Step: o2.Step, Certificate: o2.Cert})
+				case "judge":
+					v.VerifJudge(kinds[o2.Kind], 1000, 1000, best, common.Hash{1}, params.KindChamber)
+				}
+			})
+			db.mode = ""
+			if wasKilled {
+				v = newVoter(db, mux, &best)
+			}
+		default:
+			run()
+		}
+	}
+	// let the AsyncPost goroutines deliver: wait until the count is stable
+	last, stable := -1, 0
+	for i := 0; i < 400 && stable < 4; i++ {
+		time.Sleep(500 * time.Microsecond)
+		w.lock.Lock()
+		n := len(w.sent)
+		w.lock.Unlock()
+		if n == last {
+			stable++
+		} else {
+			stable, last = 0, n
+		}
+	}
+	mux.Stop()
+	<-done
+	return w.sent, w.hashes, db.puts
+}
+
+func genVoterHistory(r *vf.Rng) []VOp {
+	n := 4 + r.Heavy(60)
+	round, idx := uint64(1+r.Intn(30)), uint32(1)
+	cert := r.Chance(30)
+	var ops []VOp
+	steps := []uint32{ucon.UConStepProposal, ucon.UConStepPrevote, ucon.UConStepPrecommit, ucon.UConStepCertificate}
+	ops = append(ops, VOp{T: "ctx", R: round, I: idx, Step: steps[r.Intn(2)], Cert: cert, Hash: 0xa0})
+	for len(ops) < n {
+		h := byte(0xa0 + r.Intn(3))
+		c := r.Intn(100)
+		switch {
+		case c < 35:
+			if r.Chance(25) {
+				idx++
+			} else if r.Chance(8) {
+				round++
+				idx = 1
+				cert = r.Chance(30)
+			}
+			ops = append(ops, VOp{T: "ctx", R: round, I: idx, Step: steps[r.Intn(4)], Cert: cert, Hash: h})
+		case c < 65:
+			ops = append(ops, VOp{T: "judge", R: round, I: idx, Kind: r.Intn(4), Hash: h})
+		case c < 78:
+			ops = append(ops, VOp{T: "restart"})
+			idx = 1
+			ops = append(ops, VOp{T: "ctx", R: round, I: idx, Step: steps[r.Intn(2)], Cert: cert, Hash: h})
+		default:
+			t := "killput"
+			if r.Bool() {
+				t = "killafter"
+			}
+			k := r.Intn(3) // 0: ctx into prevote step, 1: prevote quorum, 2: precommit quorum
+			ops = append(ops, VOp{T: t, R: round, I: idx, Step: ucon.UConStepPrevote, Cert: cert, Kind: k, Hash: h})
+			// after a kill the server re-enters the round (usually at index 1)
+			if r.Chance(70) {
+				idx = 1
+			}
+			ops = append(ops, VOp{T: "ctx", R: round, I: idx, Step: steps[r.Intn(2)], Cert: cert, Hash: byte(0xa0 + r.Intn(3))})
+		}
+	}
+	return ops
+}
+
+type vhit struct {
+	What string `json:"what"`
+	VOps []VOp  `json:"vops"`
+}
+
+// voterOracle: (a) the property itself on what left the node, (b) every vote
+// that left the node has a completed database write of the same kind/round/index.
+func voterOracle(sent []emission, hashes []common.Hash, puts []emission) string {
+	if what := oracle(sent); what != "" {
+		return "voter: " + what
+	}
+	avail := map[emission]int{}
+	for _, p := range puts {
+		avail[p]++
+	}
+	for _, e := range sent {
+		if avail[e] == 0 {
+			return fmt.Sprintf("voter: a %s vote for round %d index %d was gossiped without a completed database record", kindCoq[e.Kind], e.Round, e.Idx)
+		}
+		avail[e]--
+	}
+	return ""
+}
+
 type hit struct {
 	What    string  `json:"what"`
 	History History `json:"history"`
@@ -244,6 +519,21 @@ func gen(seed uint64, n int, outDir, corpusDir string) {
 		}
 		res.CaseDescs = append(res.CaseDescs, h)
 	}
+	// voter-level campaign (oracle + gate assumption; no model comparison)
+	nv := n / 3
+	for i := 0; i < nv; i++ {
+		vops := genVoterHistory(r)
+		sent, hashes, puts := runVoter(vops)
+		res.Distribution["voter_histories"]++
+		res.Distribution["voter_votes_gossiped"] += len(sent)
+		res.Distribution["voter_records_written"] += len(puts)
+		for _, o := range vops {
+			res.Count("vop_" + o.T)
+		}
+		if what := voterOracle(sent, hashes, puts); what != "" {
+			res.OracleHits = append(res.OracleHits, vhit{what, vops})
+		}
+	}
 	sb.WriteString("].\nDefinition M := Eval vm_compute in mismatches cases.\nPrint M.\n")
 	vf.WriteFile(filepath.Join(outDir, "Cases.v"), sb.String())
 	res.Cases = len(hs)
@@ -261,10 +551,21 @@ func replay(file string) {
 	var rp struct {
 		History *History `json:"history"`
 		Ops     []Op     `json:"ops"`
+		VOps    []VOp    `json:"vops"`
 	}
 	if err := json.Unmarshal(b, &rp); err != nil {
 		fmt.Println(err)
 		os.Exit(2)
+	}
+	if len(rp.VOps) > 0 {
+		sent, hashes, puts := runVoter(rp.VOps)
+		fmt.Println("gossiped:", sent, "records:", puts)
+		if what := voterOracle(sent, hashes, puts); what != "" {
+			fmt.Println("ORACLE VIOLATION:", what)
+			os.Exit(1)
+		}
+		fmt.Println("property holds on this voter history")
+		return
 	}
 	h := History{Ops: rp.Ops}
 	if rp.History != nil {
